@@ -59,14 +59,27 @@ def body_list(case, ctx):
 def body_mask(case, ctx):
     a, x, bounds = base(case, ctx)
     n = len(a)
-    m = np.resize(rl.dense("bool", case["mask"]), n)
     kind = case["as"]
+    if kind == "rl-derived":
+        # a mask the library itself derives by comparing a run-length array: neighbouring runs may share a truth value
+        src = np.resize(rl.dense("int8", case["msrc"]), n)
+        t = int(src[case["t"] % n])
+        der = lib(lambda: rl.encode(src) > t if case["t"] % 2 else rl.encode(src) != t)
+        m = (src > t) if case["t"] % 2 else (src != t)
+        if not der.ok:
+            raise Violation("rl-derived-mask:refused", got=der.brief())
+    else:
+        m = np.resize(rl.dense("bool", case["mask"]), n)
     ctx.label("mask:" + kind, "all-false" if not m.any() else "all-true" if m.all() else "mixed")
     ctx.nt(bool(m.any()) and not bool(m.all()))
     exp = a[m]
     if kind == "rl":
         got = lib(lambda: x[rl.encode(m)])
         rl.expect_rl(got, exp, "rl-mask", strict=False, mask=m.tolist())
+    elif kind == "rl-derived":
+        rl.expect_rl(lib(lambda: der.value), m, "rl-derived-mask", strict=False)
+        got = lib(lambda: x[der.value])
+        rl.expect_rl(got, exp, "rl-derived-mask-selection", strict=False, mask=m.tolist())
     else:
         obj = m if kind == "array" else m.tolist()
         expect_array(lib(lambda: x[obj]), exp, "dense-mask", mask=m.tolist())
@@ -141,7 +154,10 @@ def idx_case(draw, tier, kind):
         case["as"] = draw(st.sampled_from(["list", "int64", "int64", "int32", "intp"]))
     elif kind == "mask":
         case["mask"] = draw(st.one_of(rl.runs("bool", tier), st.just([[False, 1]]), st.just([[True, 1]])))
-        case["as"] = draw(st.sampled_from(["array", "list", "rl", "rl"]))
+        case["as"] = draw(st.sampled_from(["array", "list", "rl", "rl", "rl-derived"]))
+        if case["as"] == "rl-derived":
+            case["msrc"] = draw(rl.runs("int8", tier))
+            case["t"] = draw(st.integers(0, 1000))
     elif kind == "slice":
         case["s"] = [draw(gen.bound(n)), draw(gen.bound(n)), draw(st.sampled_from([None, None, 1, -1, 2, -2, 3, -3, 5, -5, n, -n]))]
         case["form"] = draw(st.sampled_from(["plain", "plain", "plain", "tuple1", "ell-i", "i-ell"]))
